@@ -385,6 +385,27 @@ def c13_padding(case):
         return bad("C13:padding", "decoder(%r) -> %s but padded %r -> %s" % (x, r1, back, r2))
     return ok()
 
+
+# ---------------------------------------------------------------------------
+# C18
+
+
+def c18_compat(case):
+    from . import docs
+    reset_table()
+    x = case["selfies"]
+    toks = _tok(x)
+    y = "".join(docs.modernize(t) for t in toks)
+    r1 = _dec(x, compatible=True)
+    r2 = _dec(y)
+    if r1 != r2:
+        return bad("C18:modern-equivalent", "decoder(%r, compatible=True) -> %s but decoder(%r) -> %s" % (x, str(r1)[:100], y, str(r2)[:100]))
+    if not any(docs.is_legacy(t) for t in toks):
+        r3 = _dec(x)
+        if r3 != r1:
+            return bad("C18:not-conservative", "no legacy symbol in %r, yet compatible=True -> %s and plain -> %s" % (x, str(r1)[:100], str(r3)[:100]))
+    return ok()
+
 # ---------------------------------------------------------------------------
 
 KINDS = {
@@ -395,6 +416,7 @@ KINDS = {
     "index_e2e": c16_end_to_end,
     "nop_invisible": c13_nop,
     "nop_padding": c13_padding,
+    "compat": c18_compat,
     "state_fn": lemma_state_fn,
     "ring_step": lemma_ring_step,
 }
